@@ -455,6 +455,16 @@ def body_starts(fa, heads):
     return [d for h in heads for (d, l) in fa.cfg.succ[h] if l == "T"]
 
 
+def spread_copy(e):
+    """xs for `[*xs]` / `(*xs,)` / `[x for x in xs]`: a new list / tuple of the elements of xs, in order."""
+    if isinstance(e, (ast.List, ast.Tuple)) and isinstance(e.ctx, ast.Load) and len(e.elts) == 1 and isinstance(e.elts[0], ast.Starred):
+        return e.elts[0].value
+    if isinstance(e, ast.ListComp) and len(e.generators) == 1 and not e.generators[0].ifs and not e.generators[0].is_async \
+            and isinstance(e.elt, ast.Name) and isinstance(e.generators[0].target, ast.Name) and e.elt.id == e.generators[0].target.id:
+        return e.generators[0].iter
+    return None
+
+
 class Seqs:
     """Classifies sequences of one function by origin.  role(e, at) is None (unknown / not aligned with the input)
     or the name of a sequence that has exactly one element per input position, in input order:
@@ -480,9 +490,13 @@ class Seqs:
         return roles.pop() if len(roles) == 1 else "aligned"
 
     def unwrap(self, e, names=WRAPPERS):
-        while isinstance(e, ast.Call) and A.call_attr(e) in names and len(e.args) == 1 and not isinstance(e.args[0], ast.Starred):
-            e = e.args[0]
-        return e
+        while True:
+            if isinstance(e, ast.Call) and A.call_attr(e) in names and len(e.args) == 1 and not isinstance(e.args[0], ast.Starred):
+                e = e.args[0]
+            elif spread_copy(e) is not None and ("tuple" if isinstance(e, ast.Tuple) else "list") in names:
+                e = spread_copy(e)      # [*xs] is list(xs), (*xs,) is tuple(xs)
+            else:
+                return e
 
     def role(self, e, at, _seen=frozenset()):
         key = (id(e), at)
@@ -496,7 +510,7 @@ class Seqs:
 
     def _role(self, e, at, _seen):
         fa = self.fa
-        if isinstance(e, ast.Call) and self.call_role:
+        if (isinstance(e, ast.Call) or spread_copy(e) is not None) and self.call_role:
             r = self.call_role(self, e, at)
             if r:
                 return r
@@ -2171,12 +2185,16 @@ def _range_call_role(mr):
     RAW = {"next", "iter", "items", "keys", "values"}
 
     def role(seqs, e, at):
-        if not isinstance(e, ast.Call):
-            return None
-        if isinstance(e.func, ast.Name) and e.func.id == "list" and len(e.args) == 1 and not e.keywords:
-            d = mr.df.deps(e.args[0], at)
+        src = spread_copy(e)
+        if src is None and isinstance(e, ast.Call) and isinstance(e.func, ast.Name) and e.func.id in ("list", "tuple") and len(e.args) == 1 and not e.keywords \
+                and not isinstance(e.args[0], ast.Starred):
+            src = e.args[0]
+        if src is not None:
+            d = mr.df.deps(src, at)
             if "param:kwargs" in d and all(x.split(":", 1)[1] in RAW for x in d if x.startswith("call:")):
                 return "values:%d" % id(e)
+            return None
+        if not isinstance(e, ast.Call):
             return None
         if A.call_attr(e) == "call_batch" and A.arg_or_kw(e, 0, "kwargs_list") is not None:
             # failures are raised, not paired with their values (the default; spelled out or not)
@@ -2387,11 +2405,17 @@ def _check_front_end(ck, R3):
     run, seqs, arg, elts = call_batch_dispatch(cb)
     built = [(reference_parts(ck, cb, x, n), p) for (x, n, p) in elts or []]
 
+    def no_positional(e, n):
+        # the empty tuple, wherever it was written (`args = ()` ... `args=args`)
+        lv = origins(cb, e, n)
+        return bool(lv) and all((isinstance(x, ast.Tuple) and not x.elts) or (isinstance(x, ast.Call) and isinstance(x.func, ast.Name) and x.func.id == "tuple"
+                                                                                and not x.args and not x.keywords) for (x, _n) in lv)
+
     def is_ref(parts, p):
         if parts is None:
             return False
         _f, args, kw, _c, n = parts
-        return kw is not None and p.elem_role(seqs, kw, n) == "input" and (args is None or (isinstance(args, ast.Tuple) and not args.elts))
+        return kw is not None and p.elem_role(seqs, kw, n) == "input" and (args is None or no_positional(args, n))
     ok6 = bool(built) and all(is_ref(parts, p) for (parts, p) in built)
     ck.ob(R3, cb.key(None, "refs-in-order"), ok6, "one reference per kwargs, in order" if ok6 else
           "call_batch does not build exactly one reference per kwargs in input order", cb.where())
